@@ -384,6 +384,60 @@ Proof.
   cbn [existsb] in Hm. apply orb_false_iff in Hm as (-> & Hm). apply IH; exact Hm.
 Qed.
 
+(** *** URL rule matching *)
+Lemma prefix_iff (a b : string) : String.prefix a b = true <-> exists rest, b = (a ++ rest)%string.
+Proof.
+  revert b. induction a as [|c a IH]; intros b.
+  - destruct b; simpl; (split; [intros _; eexists; reflexivity | intros _; reflexivity]).
+  - destruct b as [|d b]; simpl.
+    + split; [discriminate | intros (rest & H); discriminate H].
+    + destruct (Ascii.ascii_dec c d) as [->|Hne].
+      * rewrite IH. split; intros (rest & H); exists rest; congruence.
+      * split; [discriminate | intros (rest & H); congruence].
+Qed.
+
+Lemma str_nonempty_iff s : str_nonempty s = true <-> s <> ""%string.
+Proof.
+  unfold str_nonempty. rewrite negb_true_iff. split.
+  - intros H ->. rewrite String.eqb_refl in H. discriminate.
+  - intros H. apply String.eqb_neq. exact H.
+Qed.
+
+Lemma method_ok_iff u m : method_ok u m = true <-> fu_methods u = [] \/ In m (fu_methods u).
+Proof.
+  unfold method_ok. destruct (fu_methods u) as [|x xs] eqn:E.
+  - split; [left; reflexivity | reflexivity].
+  - rewrite existsb_exists. split.
+    + intros (y & Hy & Heq). apply String.eqb_eq in Heq. subst y. right; exact Hy.
+    + intros [H|H]; [discriminate|]. exists m. split; [exact H | apply String.eqb_refl].
+Qed.
+
+Lemma url_match_spec u m p rx :
+  url_match u m p rx = true <->
+  (fu_methods u = [] \/ In m (fu_methods u)) /\
+  ((fu_exact u <> ""%string /\ p = fu_exact u) \/
+   (fu_prefix u <> ""%string /\ exists rest, p = (fu_prefix u ++ rest)%string) \/
+   (fu_regex u <> ""%string /\ rx = true)).
+Proof.
+  unfold url_match, sm_match.
+  rewrite andb_true_iff, !orb_true_iff, !andb_true_iff, method_ok_iff, !str_nonempty_iff,
+    String.eqb_eq, prefix_iff. tauto.
+Qed.
+
+Lemma match_row_none us m p rxs :
+  (forall u rx, In (u, rx) (combine us rxs) -> url_match u m p rx = false) ->
+  existsb (fun b : bool => b) (match_row us m p rxs) = false.
+Proof.
+  revert rxs. induction us as [|u ut IH]; intros [|rx rt] H; cbn [match_row existsb]; try reflexivity.
+  rewrite (H u rx (or_introl eq_refl)). cbn [orb]. apply IH.
+  intros u' rx' Hin. apply H. right; exact Hin.
+Qed.
+
+Lemma unmatched_request_unlimited h now lims us m p rxs i :
+  (forall u rx, In (u, rx) (combine us rxs) -> url_match u m p rx = false) ->
+  flt_handle_aux h now lims (match_row us m p rxs) i = (h, FPass 0 None).
+Proof. intros H. apply handle_unmatched, match_row_none, H. Qed.
+
 Lemma hget_hset_other h k k' v : k <> k' -> hget (hset h k v) k' = hget h k'.
 Proof.
   intros Hne. induction h as [|[k0 v0] t IH]; cbn [hset hget].
